@@ -202,6 +202,11 @@ func contractMentions(c *FuncContract, id string) bool {
 			return true
 		}
 	}
+	for _, a := range c.asserts {
+		if hasProp(a.cl.props, id) {
+			return true
+		}
+	}
 	return false
 }
 
